@@ -105,7 +105,7 @@ func (s *space) msmCase(w *mc.W, n int, scIdx func(t int) int, ptIdx func(t int)
 		scs = append(scs, s.scs[si])
 		pts = append(pts, p)
 		terms = append(terms, s.refMul(p.e, si))
-		desc += fmt.Sprintf("[0x%x](%s/%s) ", s.full[si], s.elems[p.e].Name, ptalph.RepName[p.rep])
+		desc += fmt.Sprintf("[0x%x](%s/%s) ", s.full[si], s.elems[p.e].Name, p.repName())
 		nt = nt || s.full[si].Cmp(ref.L) >= 0 || s.tors[p.e] || s.elems[p.e].IsIdentity()
 	}
 	s.msmRun(w, "msm", n, scs, pts, refgrp.Sum(terms...), desc, nt, ristretto)
@@ -325,7 +325,7 @@ func (s *space) msmSpecial(c *mc.Ctx, evenPts []int) {
 		add := func(si int, sc *scalar.Scalar, p *lpt) {
 			scs, pts = append(scs, sc), append(pts, p)
 			terms = append(terms, s.refMul(p.e, si))
-			desc += fmt.Sprintf("[0x%x](%s/%s) ", s.full[si], s.elems[p.e].Name, ptalph.RepName[p.rep])
+			desc += fmt.Sprintf("[0x%x](%s/%s) ", s.full[si], s.elems[p.e].Name, p.repName())
 		}
 		for t := 0; t < n; t++ {
 			si, p := scAt(t), ptAt(t)
